@@ -350,7 +350,7 @@ func c15Run(c *Ctx) {
 		if c.W.out.Digests == nil {
 			c.W.out.Digests = map[string]string{}
 		}
-		c.W.out.Digests[fmt.Sprintf("%s/%d", kind, c.K%c15Scenarios(c.W.Tier))] = hs
+		c.W.out.Digests[fmt.Sprintf("%s/%s/%d", c.W.Tier, kind, c.K%c15Scenarios(c.W.Tier))] = hs
 	}
 	c.Held(kind, fmt.Sprintf("maps=%d opts=%d cmds=%d len=%d", maps, len(d0.Opts), len(d0.Cmds), len(first)/100))
 }
